@@ -94,7 +94,14 @@ def main():
         for case, st, info in ex.map(run, cases):
             print('%-18s %-8s %s' % (st, case, info[:230]), flush=True)
             out[case] = {'status': st, 'info': info}
-    json.dump(out, open(os.path.join(SEEDED, 'last_run.json'), 'w'), indent=1)
+    # merge into the record of earlier runs (a partial run updates only its own cases)
+    path = os.path.join(SEEDED, 'last_run.json')
+    try:
+        allres = json.load(open(path))
+    except Exception:
+        allres = {}
+    allres.update(out)
+    json.dump({k: allres[k] for k in sorted(allres)}, open(path, 'w'), indent=1)
 
 
 if __name__ == '__main__':
